@@ -196,6 +196,30 @@ def check_bits(res, facts, owners, which=('index', 'fraction', 'ramp')):
             res.ob('R-BITS', inst + ' ramp()', ok, 'ramp() = %r; expected acc/2^%d' % (o.ret, total),
                    where_of(facts, PAF + 'ramp'), key='R-BITS:ramp:' + inst)
             n += 1
+        # R-EXACT: the phase is handed to the float domain without rounding.  f32 holds every integer of magnitude <= 2^24
+        # (and every power of two); a wider accumulator would be quantised by `as f32` and the waveforms would move in
+        # steps larger than the phase step (the exactness clauses of C10-C12 and the interpolation of C03 rest on this).
+        seen = set()
+        for fn_, ty_, term, lo, hi in it.int_float_casts:
+            if not fn_.startswith(PAF.rstrip(':')) and 'phase_accumulator' not in fn_:
+                continue
+            mant = 24 if ty_ == 'f32' else 53
+            c = term.const_value()
+            if c is not None:
+                ci = abs(int(c))
+                while ci and ci % 2 == 0:
+                    ci //= 2
+                exact = c == int(c) and ci < (1 << mant)
+            else:
+                exact = lo >= -(1 << mant) and hi <= (1 << mant)
+            k = (fn_.split('::')[-1], repr(term))
+            if k in seen:
+                continue
+            seen.add(k)
+            res.ob('R-EXACT', inst + ' %s: integer -> %s conversion is exact' % (fn_.split('::')[-1], ty_), exact,
+                   '%r in [%s, %s] does not fit the %d-bit significand of %s: the phase is rounded before the waveform is computed' % (term, lo, hi, mant, ty_),
+                   where_of(facts, fn_), key='R-EXACT:%s:%s:%s' % (inst, fn_.split('::')[-1], len(seen)))
+            n += 1
     return n
 
 
@@ -441,6 +465,8 @@ def check_gates(res, facts, prop):
                     res.ob('R-FSM', inst + '|ignored', not ch, 'gate event that must be ignored changes %s' % ch, where, key='R-FSM:%s:ignored' % inst)
                     continue
                 pa1 = post.get('phase_accumulator')
+                if prop == 'C01':
+                    res.ob('R-FSM', inst + '|state', state_name(post.get('state')) == tgt, 'state after %s in %s = %s, expected %s' % (meth, state, state_name(post.get('state')), tgt), where, key='R-FSM:%s:state' % inst)
                 if prop == 'C02':
                     res.ob('R-FSM', inst + '|state', state_name(post.get('state')) == tgt, 'state after %s in %s = %s, expected %s' % (meth, state, state_name(post.get('state')), tgt), where, key='R-FSM:%s:state' % inst)
                     ok_acc = pa1.get('accumulator').term == ZERO and bool_of(o.ctx, pa1.get('rolled_over')) is False
@@ -508,17 +534,25 @@ def check_tick(res, facts, prop):
                 # every feasible recomputation outcome must agree with the stored value (paths split on the same guards)
                 res.ob('R-LATCH', inst0 + '->%s|value recomputed' % s1, isinstance(got, Num) and len(exp_vals) >= 1 and all(got.term == e for e in exp_vals),
                        'value after tick = %r; expected calc_value(post-state) = %r' % (got, exp_vals), where, key='R-LATCH:%s->%s' % (inst0, s1))
-            if prop != 'C02':
+            # C02 owns the complete relation.  The shape (C01) and continuity (C03) statements presuppose part of it: phases are
+            # entered in order and only when the accumulated phase wraps (a missed wrap restarts the curve from its start
+            # level: non-monotone and a step), and a new phase starts at phase 0 (else the new curve starts in mid-air).
+            full = prop == 'C02'
+            if prop not in ('C02', 'C01', 'C03'):
                 continue
             if state not in TIME_FIELD:
                 allowed = {'value'}
-                res.ob('R-FSM', inst0 + '|persist', s1 == state and set(ch) <= allowed, 'state %s -> %s, writes %s (sustain/rest persist until a gate event)' % (state, s1, ch), where, key='R-FSM:%s:persist' % inst0)
+                if full:
+                    res.ob('R-FSM', inst0 + '|persist', s1 == state and set(ch) <= allowed, 'state %s -> %s, writes %s (sustain/rest persist until a gate event)' % (state, s1, ch), where, key='R-FSM:%s:persist' % inst0)
+                elif prop == 'C01':
+                    res.ob('R-FSM', inst0 + '|persist', s1 == state, 'state %s -> %s on tick (sustain/rest persist until a gate event)' % (state, s1), where, key='R-FSM:%s:persist' % inst0)
                 continue
             period = pre.get(TIME_FIELD[state]).fields[0].term
             inc1 = pa1.get('increment')
-            exp_inc_real = inc_spec(total, period, fs)
-            ok_inc = isinstance(inc1, Num) and inc1.term == t_f2i(exp_inc_real, 0, 2 ** 32 - 1, o.ctx)
-            res.ob('R-INC', inst0 + '->%s' % s1, ok_inc, 'increment programmed on this tick = %r; expected trunc(2^%d / (%s * fs))' % (inc1, total, TIME_FIELD[state]), where, key='R-INC:%s->%s' % (inst0, s1))
+            if full:
+                exp_inc_real = inc_spec(total, period, fs)
+                ok_inc = isinstance(inc1, Num) and inc1.term == t_f2i(exp_inc_real, 0, 2 ** 32 - 1, o.ctx)
+                res.ob('R-INC', inst0 + '->%s' % s1, ok_inc, 'increment programmed on this tick = %r; expected trunc(2^%d / (%s * fs))' % (inc1, total, TIME_FIELD[state]), where, key='R-INC:%s->%s' % (inst0, s1))
             if not isinstance(inc1, Num):
                 continue
             total_sum = acc0 + inc1.term
@@ -526,18 +560,21 @@ def check_tick(res, facts, prop):
             if s1 == TICK_NEXT[state]:
                 res.ob('R-ROLLOVER', inst0 + '->%s' % s1, rolled is True,
                        'phase advances although acc+inc > mask is not implied by the path condition %s' % (o.ctx.facts[-3:],), where, key='R-ROLLOVER:%s:adv' % inst0)
-                ok = pa1.get('accumulator').term == ZERO and bool_of(o.ctx, pa1.get('rolled_over')) is False
+                ok = pa1.get('accumulator').term == ZERO and (bool_of(o.ctx, pa1.get('rolled_over')) is False or not full)
                 res.ob('R-FSM', inst0 + '->%s|restart' % s1, ok, 'after advancing: accumulator %r rolled_over %r (expected 0/false)' % (pa1.get('accumulator'), pa1.get('rolled_over')), where, key='R-FSM:%s:adv-restart' % inst0)
             elif s1 == state:
                 res.ob('R-ROLLOVER', inst0 + '->stay', rolled is False,
                        'phase does not advance although acc+inc <= mask is not implied by the path condition %s (a wrap can be missed)' % (o.ctx.facts[-3:],), where, key='R-ROLLOVER:%s:stay' % inst0)
                 exp_acc = total_sum
                 got_acc = pa1.get('accumulator').term
-                res.ob('R-FSM', inst0 + '->stay|advance', got_acc == exp_acc or got_acc == t_mod(total_sum, Poly.const(mask + 1), o.ctx),
-                       'accumulator after a non-wrapping tick = %r, expected acc + increment' % (got_acc,), where, key='R-FSM:%s:stay-acc' % inst0)
-                res.ob('R-FSM', inst0 + '->stay|flag', bool_of(o.ctx, pa1.get('rolled_over')) is False, 'rolled_over left set: %r' % (pa1.get('rolled_over'),), where, key='R-FSM:%s:stay-flag' % inst0)
+                if full:
+                    res.ob('R-FSM', inst0 + '->stay|advance', got_acc == exp_acc or got_acc == t_mod(total_sum, Poly.const(mask + 1), o.ctx),
+                           'accumulator after a non-wrapping tick = %r, expected acc + increment' % (got_acc,), where, key='R-FSM:%s:stay-acc' % inst0)
+                    res.ob('R-FSM', inst0 + '->stay|flag', bool_of(o.ctx, pa1.get('rolled_over')) is False, 'rolled_over left set: %r' % (pa1.get('rolled_over'),), where, key='R-FSM:%s:stay-flag' % inst0)
             else:
                 res.ob('R-FSM', inst0 + '->%s' % s1, False, 'illegal transition %s -> %s on tick' % (state, s1), where, key='R-FSM:%s:illegal' % inst0)
+            if not full:
+                continue
             allowed = {'value', 'state', 'phase_accumulator.accumulator', 'phase_accumulator.last_accumulator', 'phase_accumulator.increment', 'phase_accumulator.rolled_over'}
             res.ob('R-FSM', inst0 + '->%s|writes' % s1, set(ch) <= allowed, 'unexpected writes: %s' % sorted(set(ch) - allowed), where, key='R-FSM:%s:%s:writes' % (inst0, s1))
             # liveness: increment >= 1 for every legal time and sample rate
